@@ -15,7 +15,8 @@ EXTENDS TimeSteppers, TLC, Json
 
 CONSTANTS Vals,         \* values of field cells, e.g. -3..3
           PVals,        \* values of scalar parameters
-          Impulses      \* TRUE: inputs are unit impulses instead of random fields
+          Impulses,     \* TRUE: inputs are unit impulses instead of random fields
+          OnlyOps       \* {} = every operation, otherwise the names to keep
 
 VARIABLES op, s, v, ps, i, pc
 vars == <<op, s, v, ps, i, pc>>
@@ -51,7 +52,9 @@ Ops3 == CommonOps \o <<
     O("filter", FALSE, 2, 1, "multiplicative"),
     O("filter_vec", FALSE, 1, 1, "multiplicative"), O("filter_vec", FALSE, 1, 1, "convolution") >>
 
-OpList == IF D = 2 THEN Ops2 ELSE Ops3
+AllOps == IF D = 2 THEN Ops2 ELSE Ops3
+Keep(x) == OnlyOps = {} \/ x.name \in OnlyOps
+OpList == SelectSeq(AllOps, Keep)
 
 RandField  == [c \in Cells |-> RandomElement(Vals)]
 RandVField == [k \in 1..D |-> RandField]
